@@ -914,6 +914,39 @@ fn enumerated(opts: &Opts, acc: &mut Acc) {
     });
     acc.mark_exhaustive("fixed-layout", "hand-picked multi-line / non-ASCII layouts of every construct, and malformed ones");
     acc.mark_exhaustive("fixed-layout-truncated", "every fixed layout truncated at every character offset");
+
+    // malformed f-string placeholders: the error is found by a sub-parser whose positions are
+    // relative to the placeholder; the token may start far to the right / below
+    let prefixes = ["", " ", "          ", "\n", "\n\n     ", "x +\n              ", "'日本語' + ", "[1,\n2,       ", "a ? b :\t\t\t"];
+    let bodies = [
+        "a +", "a +\n", "a\n+\n", "\n\n1 +", "(a\n", "a#", "a\n#", "1 +\n\n\n", "[1,\n2", "\n", "", "a b", "a\nb", "'é'\n+", "a ? b\n",
+        "f\"{1 +\n}\"", "x.\n1", "a\n\n\n\n\n+",
+    ];
+    let quotes = ["'", "\""];
+    let suffixes = ["", "\n", " + y", "\n\n+ y"];
+    let mut srcs: Vec<String> = Vec::new();
+    for pre in prefixes {
+        for body in bodies {
+            for q in quotes {
+                if body.contains(q) {
+                    continue;
+                }
+                for suf in suffixes {
+                    srcs.push(format!("{}f{}{{{}}}{}{}", pre, q, body, q, suf));
+                    srcs.push(format!("{}f{}ab{{x}}é{{{}}} {}{}", pre, q, body, q, suf));
+                }
+            }
+        }
+    }
+    par_chunks(acc, opts.threads, &srcs, |s, a| {
+        for f in check_source(s, "fstring-placeholder-errors", "fstring-placeholder", a) {
+            a.fail(f);
+        }
+    });
+    acc.mark_exhaustive(
+        "fstring-placeholder-errors",
+        "9 prefixes (indentation, preceding lines, non-ASCII) x 18 malformed placeholder bodies (most with newlines) x 2 quote kinds x 4 suffixes, as first and as second placeholder",
+    );
 }
 
 fn run(opts: &Opts, acc: &mut Acc) {
